@@ -65,7 +65,7 @@ TERMS = {
   "nf": {"CONSTRAINT", "FRICTIONLOSS"},
   "nl": {"CONSTRAINT", "LIMIT"},
   "ncon": {"CONSTRAINT", "CONTACT", "FILTERPARENT", "MULTICCD"},
-  "sensor_posvel": {"SENSOR"},
+  "sensor_posvel": {"SENSOR", "GRAVITY", "SPRING"},  # the e_potential sensor of the "free" model depends on gravity and springs
   "energy": {"ENERGY", "GRAVITY", "SPRING"},
 }
 # flag -> terms that must be exactly zero when the flag is set
@@ -163,6 +163,7 @@ def model_xml(name, v):
  <framepos objtype="site" objname="sp2"/><tendonpos tendon="ts"/><jointpos joint="js"/>
  <framelinvel objtype="site" objname="sp4"/><tendonvel tendon="ts"/>
  <actuatorfrc actuator="mt"/><framelinacc objtype="site" objname="sp4"/><tendonlimitfrc tendon="ts"/>
+ <e_potential/><e_kinetic/>
 </sensor>
 </mujoco>"""
   # "tree": generated 3-body tree (hinge, ball, hinge+slide) with limits/frictionloss/springs, floor contacts, Euler
@@ -302,7 +303,10 @@ def execute(scn):
       c.close(f"{tag}:{f}", got[f], ref[f], "f32dyn", vkey=f"parity:{f}:{fl}")
     for f in ("qpos", "qvel", "act", "qacc", "qfrc_constraint", "sensordata"):
       c.close(f"{tag}:{f}", got[f], ref[f], dyn, vkey=f"parity:{f}:{fl}")
-    c.close(f"{tag}:energy", got["energy"], ref["energy"], "f32dyn", vkey=f"parity:energy:{fl}")
+    # Data.energy is specified only while the ENERGY flag is on (with the flag off MuJoCo's content depends on which energy
+    # sensors happened to run; the sensors themselves are compared through sensordata above)
+    if "ENERGY" in flags:
+      c.close(f"{tag}:energy", got["energy"], ref["energy"], "f32dyn", vkey=f"parity:energy:{fl}")
     c.close(f"{tag}:time", got["time"], ref["time"], "f32", vkey=f"parity:time:{fl}")
 
   # ---- (2) differential inside MJWarp against the flag-free run
